@@ -168,8 +168,12 @@ class MetaMolecule(nx.Graph):
         # make a new residue graph and overwrite the old one
         new_meta_graph = make_residue_graph(self.molecule, attrs=('resid', 'resname'))
 
-        # we need to do some bookkeeping for the resids
+        # we need to do some bookkeeping for the resids; when no residue
+        # is relabelled (the graph is only regenerated) the residues keep
+        # their ids
         for idx, node in enumerate(new_meta_graph.nodes):
+            if not mapping:
+                break
             new_meta_graph.nodes[node]["resid"] = idx
             for atom in new_meta_graph.nodes[node]["graph"]:
                 self.molecule.nodes[atom]["resid"] = idx
